@@ -60,6 +60,10 @@ pub struct ShapeInfo {
     /// with no new driver-level `start_send` in between (the pipeline held it across the Pending)
     pub held_ready: &'static str,
     pub held_fin: &'static str,
+    /// every poll of downstream 0 is accompanied by a poll of downstream 1 in the same pipeline
+    /// call (both hang directly under a `ready_both!` combinator): the "coupled legs" readiness
+    /// pattern may be drawn for this shape
+    pub coupled_ok: bool,
 }
 
 /// Per-run knobs (swarm testing: drawn first, before the schedule).
@@ -87,6 +91,11 @@ pub struct Cfg {
     pub hand_extra_ready_pct: u64,
     pub hand_size_hint: bool,
     pub vague_hint: bool,
+    /// coupled legs: once downstream 0 answers `Pending` it stays `Pending` (and is not woken)
+    /// until downstream 1 has been polled — the situation `ready_both!` exists for ("both
+    /// expressions are always evaluated so that both sides can do work and/or register wakers"),
+    /// e.g. two legs feeding the two ends of one bounded buffer
+    pub coupled: bool,
 }
 
 impl Cfg {
@@ -116,6 +125,7 @@ impl Cfg {
         let hand_extra_ready_pct = *sim.pick("hand_extra_ready", &[0u64, 0, 20, 50]);
         let hand_size_hint = !sim.flip("hand_no_size_hint", 1, 2);
         let vague_hint = sim.flip("vague_hint", 1, 3);
+        let coupled = shape.coupled_ok && sim.flip("coupled_legs", 1, 3);
         Cfg {
             shape,
             k,
@@ -135,6 +145,7 @@ impl Cfg {
             hand_extra_ready_pct,
             hand_size_hint,
             vague_hint,
+            coupled,
         }
     }
 }
@@ -200,6 +211,9 @@ pub struct St {
     pub driver_waker: Option<Waker>,
     pub main_done: bool,
     pub waiting_subgraph: bool,
+    /// coupled legs: downstream 0 is blocked until downstream 1 is polled; its waker
+    pub coupled_blocked: bool,
+    coupled_waker: Option<Waker>,
     pend_budget: u64,
     pub items_flowed: u64,
     pub polls: u64,
@@ -253,6 +267,8 @@ impl<'s> Env<'s> {
                 driver_waker: None,
                 main_done: false,
                 waiting_subgraph: false,
+                coupled_blocked: false,
+                coupled_waker: None,
                 pend_budget: PEND_BUDGET,
                 items_flowed: 0,
                 polls: 0,
@@ -397,6 +413,51 @@ impl<'s> Env<'s> {
         self.st.borrow_mut().input_ended = true;
     }
 
+    // ---------------------------------------------------------------- coupled legs
+    /// Downstream 1 is being polled: a blocked downstream 0 becomes pollable again and is woken.
+    fn coupled_sibling_polled(&self, id: usize) {
+        if !self.cfg.coupled || id != 1 {
+            return;
+        }
+        let w = {
+            let mut st = self.st.borrow_mut();
+            if !st.coupled_blocked {
+                return;
+            }
+            st.coupled_blocked = false;
+            st.coupled_waker.take()
+        };
+        self.probe("coupled_leg_unblocked_by_sibling_poll");
+        self.event(0x700, || "out1 polled: out0 unblocked and woken".into());
+        if let Some(w) = w {
+            w.wake();
+        }
+    }
+    /// Downstream 0 in coupled mode: `Some(true)` = still blocked (forced Pending, no decision).
+    fn coupled_forced(&self, id: usize, waker: Option<&Waker>) -> bool {
+        if !self.cfg.coupled || id != 0 {
+            return false;
+        }
+        let mut st = self.st.borrow_mut();
+        if st.coupled_blocked {
+            st.coupled_waker = waker.cloned().or_else(|| st.driver_waker.clone());
+            true
+        } else {
+            false
+        }
+    }
+    /// Downstream 0 just answered a (drawn) Pending in coupled mode: block it instead of arranging
+    /// a wake-up. Returns true when it took over the wake-up.
+    fn coupled_block(&self, id: usize, waker: Option<&Waker>) -> bool {
+        if !self.cfg.coupled || id != 0 {
+            return false;
+        }
+        let mut st = self.st.borrow_mut();
+        st.coupled_blocked = true;
+        st.coupled_waker = waker.cloned().or_else(|| st.driver_waker.clone());
+        true
+    }
+
     // ---------------------------------------------------------------- downstream front end
     pub fn on_ready(&self, id: usize, waker: Option<&Waker>) -> bool {
         let (mut burst, after_fin, after_done) = {
@@ -410,7 +471,9 @@ impl<'s> Env<'s> {
         } else if after_fin {
             self.probe("obs/poll_ready_after_finalize_pending");
         }
-        let pending = self.decide_pending(RDY_SITES[id], self.cfg.p_ready[id], &mut burst, true);
+        self.coupled_sibling_polled(id);
+        let forced = self.coupled_forced(id, waker);
+        let pending = forced || self.decide_pending(RDY_SITES[id], self.cfg.p_ready[id], &mut burst, true);
         {
             let mut st = self.st.borrow_mut();
             let sends = st.driver_sends;
@@ -428,7 +491,9 @@ impl<'s> Env<'s> {
         });
         if pending {
             self.fault("ready_pending");
-            self.arrange_wake(waker);
+            if !forced && !self.coupled_block(id, waker) {
+                self.arrange_wake(waker);
+            }
         }
         pending
     }
@@ -472,6 +537,7 @@ impl<'s> Env<'s> {
     }
 
     pub fn on_finalize(&self, id: usize, waker: Option<&Waker>) -> bool {
+        self.coupled_sibling_polled(id);
         let (mut burst, already) = {
             let mut st = self.st.borrow_mut();
             st.polls += 1;
@@ -486,7 +552,8 @@ impl<'s> Env<'s> {
             self.event(0x1800 + id as u64 * 16 + 2, || format!("out{id}.poll_finalize -> Done (again)"));
             return false;
         }
-        let pending = self.decide_pending(FIN_SITES[id], self.cfg.p_fin[id], &mut burst, true);
+        let forced = self.coupled_forced(id, waker);
+        let pending = forced || self.decide_pending(FIN_SITES[id], self.cfg.p_fin[id], &mut burst, true);
         {
             let mut st = self.st.borrow_mut();
             let sends = st.driver_sends;
@@ -508,7 +575,9 @@ impl<'s> Env<'s> {
         });
         if pending {
             self.fault("finalize_pending");
-            self.arrange_wake(waker);
+            if !forced && !self.coupled_block(id, waker) {
+                self.arrange_wake(waker);
+            }
         }
         pending
     }
